@@ -100,20 +100,50 @@ func (g *gen) dress(k, nv int) int {
 	if k < 0 {
 		return k
 	}
-	if g.r.Chance(1, 3) {
+	if g.r.Chance(2, 3) {
 		maps := map[string][][]float64{"Position": g.rows(nv, 3)}
-		if g.r.Bool() {
-			maps["Normal"] = g.rows(nv, 3)
+		for _, nm := range []string{"Normal", "Color", "Custom"} {
+			if g.r.Chance(1, 3) {
+				maps[nm] = g.rows(nv, 3)
+			}
 		}
 		k = g.push(Op{Op: "setdata", I: k, K: 3, Maps: maps})
 	} else {
 		k = g.push(Op{Op: "setattr", I: k, K: 3, Name: "Position", Data: g.rows(nv, 3), Spare: g.spare()})
 	}
 	for n := g.r.Intn(3); n > 0 && k >= 0 && !g.full(); n-- {
-		kd := g.r.Range(1, 4)
+		kd := hx.Pick(g.r, []int{1, 2, 2, 4})
 		k = g.push(Op{Op: "setattr", I: k, K: kd, Name: hx.Pick(g.r, kindNames[kd]), Data: g.rows(nv, kd), Spare: g.spare()})
 	}
+	if k >= 0 && g.r.Chance(2, 5) && !g.full() {
+		// materials too: Append concatenates them, so they are one more slice several meshes can end up sharing
+		if g.r.Bool() {
+			k = g.push(Op{Op: "setmaterial", I: k, Mat: g.r.Range(1, 5)})
+		} else {
+			k = g.push(Op{Op: "setmaterials", I: k, Mats: g.matsFor(k), Spare: g.spare()})
+		}
+	}
 	return k
+}
+
+// a material list whose counts add up to the primitive count of member i (mostly)
+func (g *gen) matsFor(i int) [][2]int {
+	in := g.infos[i]
+	prims := in.nidx
+	if in.topo == 0 {
+		prims = in.nidx / 3
+	}
+	var mats [][2]int
+	left := prims
+	for left > 0 && len(mats) < 4 {
+		c := g.r.Range(1, left)
+		if len(mats) == 3 {
+			c = left
+		}
+		mats = append(mats, [2]int{c, g.r.Range(-1, 3)})
+		left -= c
+	}
+	return mats
 }
 
 func (g *gen) seed() int {
@@ -127,6 +157,9 @@ func (g *gen) seed() int {
 		ix := make([]int, nv)
 		for i := range ix {
 			ix[i] = i
+		}
+		if g.r.Bool() {
+			ix = g.r.Perm(nv)
 		}
 		k := g.push(Op{Op: "new", Topo: 1, Idx: ix, Spare: g.spare()})
 		return g.dress(k, nv)
@@ -196,19 +229,23 @@ func (g *gen) someAttr(k int, want int) (int, string, bool) {
 func (g *gen) variant(t int) int {
 	in := g.infos[t]
 	cur := t
-	for kd := 1; kd <= 4; kd++ {
-		for _, nm := range in.attrs[kd] {
-			if cur == t || g.r.Bool() {
-				if k := g.push(Op{Op: "setattr", I: cur, K: kd, Name: nm, Data: g.rows(in.nverts, kd), Spare: g.spare()}); k >= 0 {
-					cur = k
-				}
+	// one attribute (rarely two) gets other values
+	for n := 1 + g.r.Intn(5)/4; n > 0; n-- {
+		if kd, nm, ok := g.someAttr(t, 0); ok {
+			if k := g.push(Op{Op: "setattr", I: cur, K: kd, Name: nm, Data: g.rows(in.nverts, kd), Spare: g.spare()}); k >= 0 {
+				cur = k
 			}
 		}
 	}
 	if cur == t {
 		return -1
 	}
-	if g.r.Chance(1, 3) && in.nverts > 0 {
+	if (in.nmats > 0 && g.r.Chance(2, 3)) || g.r.Chance(1, 6) {
+		if k := g.push(Op{Op: "setmaterial", I: cur, Mat: g.r.Range(6, 9)}); k >= 0 {
+			cur = k
+		}
+	}
+	if g.r.Chance(1, 5) && in.nverts > 0 {
 		if k := g.push(Op{Op: "setindices", I: cur, Idx: g.indices(in.nidx, in.nverts), Spare: g.spare()}); k >= 0 {
 			cur = k
 		}
@@ -241,14 +278,24 @@ func (g *gen) appendOp(i int) bool {
 	return true
 }
 
+// step: one derivation; a choice whose precondition no pool member satisfies is re-drawn
 func (g *gen) step() {
+	n := len(g.ops)
+	for tries := 0; tries < 5 && len(g.ops) == n; tries++ {
+		g.step1()
+	}
+}
+
+func (g *gen) step1() {
 	w := g.r.Intn(100)
 	uniform := func(k int) bool { return g.infos[k].uniform }
 	tri := func(k int) bool { return g.infos[k].topo == 0 }
 	switch {
-	case w < 30:
+	case w < 22:
 		g.appendOp(g.pick(uniform))
-	case w < 37: // set an attribute: mostly of the mesh's own length
+	case w < 30:
+		g.mapOp()
+	case w < 35: // set an attribute: mostly of the mesh's own length
 		i := g.any()
 		if i < 0 {
 			return
@@ -262,7 +309,7 @@ func (g *gen) step() {
 			n = g.r.Range(0, 7) // another length (ill-formed result) or empty (deletes the attribute)
 		}
 		g.push(Op{Op: "setattr", I: i, K: kd, Name: hx.Pick(g.r, kindNames[kd]), Data: g.rows(n, kd), Spare: g.spare()})
-	case w < 40:
+	case w < 38:
 		i := g.any()
 		if i < 0 {
 			return
@@ -281,7 +328,7 @@ func (g *gen) step() {
 			}
 		}
 		g.push(Op{Op: "setdata", I: i, K: kd, Maps: maps})
-	case w < 44:
+	case w < 42:
 		i, j := g.any(), g.any()
 		if i < 0 {
 			return
@@ -291,7 +338,7 @@ func (g *gen) step() {
 			return
 		}
 		g.push(Op{Op: "copyattr", I: i, J: j, K: kd, Name: nm})
-	case w < 49:
+	case w < 47:
 		i := g.any()
 		if i < 0 {
 			return
@@ -306,45 +353,31 @@ func (g *gen) step() {
 			ix[g.r.Intn(n)] = in.nverts + g.r.Intn(3) // out of range: later gathers crash
 		}
 		g.push(Op{Op: "setindices", I: i, Idx: ix, Spare: g.spare()})
-	case w < 52:
+	case w < 50:
 		if i := g.any(); i >= 0 {
 			g.push(Op{Op: "setmaterial", I: i, Mat: g.r.Range(1, 5)})
 		}
-	case w < 56:
+	case w < 54:
 		i := g.any()
 		if i < 0 {
 			return
 		}
-		in := g.infos[i]
-		prims := in.nidx
-		if in.topo == 0 {
-			prims = in.nidx / 3
-		}
-		var mats [][2]int
-		left := prims
-		for left > 0 && len(mats) < 4 {
-			c := g.r.Range(1, left)
-			if len(mats) == 3 {
-				c = left
-			}
-			mats = append(mats, [2]int{c, g.r.Range(-1, 3)})
-			left -= c
-		}
+		mats := g.matsFor(i)
 		if g.r.Chance(1, 6) {
 			mats = append(mats, [2]int{g.r.Range(0, 2), g.r.Range(1, 3)}) // counts that do not add up
 		}
 		g.push(Op{Op: "setmaterials", I: i, Mats: mats, Spare: g.spare()})
-	case w < 57:
+	case w < 55:
 		if i := g.any(); i >= 0 {
 			g.push(Op{Op: "clear", I: i})
 		}
-	case w < 69:
+	case w < 67:
 		g.mapOp()
-	case w < 71:
+	case w < 69:
 		if i := g.pick(uniform); i >= 0 {
 			g.push(Op{Op: "topoints", I: i})
 		}
-	case w < 74:
+	case w < 72:
 		i := g.pick(tri)
 		if g.r.Chance(1, 8) {
 			i = g.any() // possibly not a triangle mesh: declared error
@@ -352,22 +385,22 @@ func (g *gen) step() {
 		if i >= 0 {
 			g.push(Op{Op: "flip", I: i, Via: g.r.Chance(1, 3)})
 		}
-	case w < 79:
+	case w < 77:
 		if i := g.any(); i >= 0 {
 			g.push(Op{Op: "unweld", I: i, Via: g.r.Chance(1, 4)})
 		}
-	case w < 82:
+	case w < 80:
 		if i := g.pick(uniform); i >= 0 {
 			g.push(Op{Op: "removeunref", I: i, Via: g.r.Chance(1, 4)})
 		}
-	case w < 85:
+	case w < 83:
 		i := g.pick(func(k int) bool { return tri(k) && uniform(k) && len(g.infos[k].attrs[3]) > 0 })
 		if i < 0 {
 			return
 		}
 		_, nm, _ := g.someAttr(i, 3)
 		g.push(Op{Op: "weld", I: i, Name: nm, N: g.r.Range(0, 3)})
-	case w < 87:
+	case w < 85:
 		i := g.pick(func(k int) bool { return uniform(k) && g.infos[k].nverts <= 12 })
 		if i < 0 {
 			return
@@ -381,13 +414,13 @@ func (g *gen) step() {
 			ts[a] = append(g.vec(3, -5, 5), g.vec(3, 1, 3)...)
 		}
 		g.push(Op{Op: "repeat", I: i, TRS: ts})
-	case w < 91:
+	case w < 89:
 		if i := g.any(); i >= 0 {
 			g.push(Op{Op: "export", I: i, Fmt: hx.Pick(g.r, exportFmts)})
 		}
-	case w < 93:
+	case w < 91:
 		g.identOp()
-	case w < 96:
+	case w < 94:
 		i := g.pick(func(k int) bool { return uniform(k) && g.infos[k].idxValid && g.infos[k].nverts > 0 })
 		if i < 0 {
 			return
@@ -400,8 +433,10 @@ func (g *gen) step() {
 		if ok {
 			g.push(Op{Op: "filter", Fn: "ge", I: i, K: kd, Name: nm, Vec: []float64{float64(g.r.Range(-5, 12))}, Via: g.r.Chance(1, 3)})
 		}
-	case w < 97:
-		i := g.pick(func(k int) bool { return g.infos[k].topo == 1 && uniform(k) && len(g.infos[k].attrs[3]) > 0 })
+	case w < 96:
+		i := g.pick(func(k int) bool {
+			return g.infos[k].topo == 1 && uniform(k) && g.infos[k].idxValid && len(g.infos[k].attrs[3]) > 0
+		})
 		if i < 0 {
 			i = g.pick(func(k int) bool { return uniform(k) && len(g.infos[k].attrs[3]) > 0 })
 			if i >= 0 && g.r.Bool() {
@@ -409,7 +444,7 @@ func (g *gen) step() {
 				return
 			}
 		}
-		if i < 0 {
+		if i < 0 || (g.infos[i].topo == 1 && !g.infos[i].idxValid) {
 			return
 		}
 		_, nm, _ := g.someAttr(i, 3)
@@ -424,10 +459,14 @@ func (g *gen) step() {
 		_, nm, _ := g.someAttr(i, 3)
 		g.push(Op{Op: "slice", I: i, Name: nm, Vec: []float64{float64(g.r.Range(-3, 12))}})
 	default:
-		i := g.pick(func(k int) bool {
+		splittable := func(k int) bool {
 			in := g.infos[k]
-			return uniform(k) && (in.nmats < 2 || (tri(k) && in.matSum >= in.nidx/3 && in.idxValid))
-		})
+			return uniform(k) && in.nmats >= 2 && tri(k) && in.nidx%3 == 0 && in.matSum >= in.nidx/3 && in.idxValid && !in.nilMat
+		}
+		i := g.pick(splittable)
+		if i < 0 || g.r.Chance(1, 5) {
+			i = g.pick(func(k int) bool { return g.infos[k].nmats < 2 || splittable(k) })
+		}
 		if i >= 0 {
 			g.push(Op{Op: "split", I: i})
 		}
@@ -464,15 +503,38 @@ func (g *gen) identOp() {
 }
 
 func (g *gen) mapOp() {
-	i := g.any()
+	nasty := g.r.Chance(1, 10) // possibly a missing attribute / wrong topology: declared error expected
+	which := g.r.Intn(16)
+	// choose the function first, then an operand that qualifies
+	need := func(k int) bool {
+		in := g.infos[k]
+		switch which {
+		case 0, 1, 2, 3:
+			return in.has(3, "Position")
+		case 4, 5:
+			return len(in.attrs[1])+len(in.attrs[2])+len(in.attrs[3]) > 0
+		case 8:
+			return len(in.attrs[2]) > 0
+		case 10:
+			return in.has(3, "Normal") && in.uniform
+		case 11, 12:
+			return in.topo == 0 && in.has(3, "Position")
+		case 6, 7, 9:
+			return len(in.attrs[3]) > 0
+		}
+		return len(in.attrs[3]) > 0 && ((in.topo == 0 && in.idxValid && in.nidx%3 == 0) || in.topo == 1 || in.topo == 2)
+	}
+	i := g.pick(need)
+	if i < 0 || nasty {
+		i = g.any()
+	}
 	if i < 0 {
 		return
 	}
 	in := g.infos[i]
 	hasPos := in.has(3, "Position")
-	nasty := g.r.Chance(1, 10) // possibly a missing attribute / wrong topology: declared error expected
 	small := func() []float64 { return g.vec(3, -6, 6) }
-	switch g.r.Intn(16) {
+	switch which {
 	case 0:
 		if hasPos || nasty {
 			g.push(Op{Op: "map", Fn: "translate", I: i, Vec: small()})
